@@ -9,7 +9,10 @@ A history is a list of operations on a growing store of objects (ids = order of 
     t:<o>:<key>           objs[o][[rows]]                               -> a copy of rows
     s:<o>:<key>:<lit>     objs[o][key] = literal                        (in place)
     a:<o>:<lit>           x = objs[o]; x += Delta(literal, ref_pos=x)   -> the object `x` is bound to afterwards (a new
-                          array in midgard: `__iadd__` returns `self + other`; for the model a `n:` with the sum)
+    b:<o>:<lit>           x = objs[o]; x -= Delta(literal, ref_pos=x)      array in midgard: `__iadd__` returns `self + other`,
+                          every other reference keeps the old contents; for the model a `n:` with the sum / difference)
+    m:<o> / d:<o>         x = objs[o]; x *= 1.5 / x /= 1.5               not defined for position arrays: TypeError, nothing
+                          changes (not an operation of the model)
 
 keys: `i2` (int), `s0-2` (slice), `a` (`:`), `e1.5` (row, column), `l0.2` (list of rows).
 
@@ -254,11 +257,25 @@ class Hist:
             k = key_of(p[2])
             self.nblocks += 1
             return self._add(self.objs[o][k], np.array(self.shadow[o][k], copy=True), self.system[o], None, self.nblocks - 1)
-        if p[0] == "a":
-            lit = self.lits[int(p[2])]
-            total = self.shadow[o] + lit
+        if p[0] in "md":
+            self.model_ops[-1] = None
             x = self.objs[o]
-            x += self.fam.delta(lit, self.system[o], x)
+            try:
+                if p[0] == "m":
+                    x *= 1.5
+                else:
+                    x /= 1.5
+            except TypeError:
+                return "TypeError"
+            return "accepted"
+        if p[0] in "ab":
+            lit = self.lits[int(p[2])]
+            total = self.shadow[o] + lit if p[0] == "a" else self.shadow[o] - lit
+            x = self.objs[o]
+            if p[0] == "a":
+                x += self.fam.delta(lit, self.system[o], x)
+            else:
+                x -= self.fam.delta(lit, self.system[o], x)
             self.model_ops[-1] = f"n:{self.fam.tok[self.system[o]]}:{self.lit(total)}"
             j = self.index_of(x)
             if j is None:        # midgard: the name is bound to a new array
@@ -370,7 +387,7 @@ TEMPLATES = ["iadd", "kept-result:all", "kept-result:row", "kept-result:view", "
 
 
 def gen_iadd(h: Hist, rng, o):
-    return f"a:{o}:{h.lit(h.fam.gen_delta(rng, h.shadow[o].shape))}"
+    return f"{rng.choice('ab')}:{o}:{h.lit(h.fam.gen_delta(rng, h.shadow[o].shape))}"
 
 
 def next_ops(h: Hist, rng, template, gen_elements):
@@ -448,7 +465,7 @@ def random_op(h: Hist, rng, gen_elements):
     two_d = h.shadow[o].ndim == 2 and h.shadow[o].shape[0] > 0
     x = rng.random()
     if x < 0.03:
-        return f"o:{o}"
+        return f"{rng.choice('omd')}:{o}"
     if x < 0.08 and h.system[o] == "trs" and h.fam.delta(np.zeros(h.shadow[o].shape), "trs", h.objs[o]) is not None:
         return gen_iadd(h, rng, o)
     if x < 0.40:
@@ -519,6 +536,7 @@ def run_history(ctx, fam, GM, template, gen_elements=None, recorded=None):
     """runs a generated (template) or a recorded ({'ops': [...], 'lits': {...}}) history"""
     rng = ctx.rng
     h = Hist(fam)
+    h.GM = GM
     pre = "history:" if fam.name == "posvel" else f"history:{fam.name}:"
     cnt = "hist-" if fam.name == "posvel" else f"hist-{fam.name}-"
     if recorded is not None:
@@ -538,6 +556,11 @@ def run_history(ctx, fam, GM, template, gen_elements=None, recorded=None):
         except Exception as e:  # noqa: BLE001 - any exception of the real code is an outcome
             gviolate(ctx, f"{pre}raises:{tok.split(':')[0]}:{type(e).__name__}", f"operation {tok} of the history raised {type(e).__name__}: {e}", case())
             return h
+        if tok[0] in "md":
+            ctx.count(cnt + "op:" + tok[0])
+            if ret != "TypeError":
+                gviolate(ctx, pre + "scaling-accepted", f"`x {'*' if tok[0] == 'm' else '/'}= 1.5` on a position array did not raise TypeError (history {' '.join(h.ops)})", case())
+            continue
         rets.append("-" if ret is None else str(ret))
         snaps.append(h.snapshot())
         ctx.count(cnt + "op:" + tok.split(":")[0] + (":" + tok.split(":")[2][0] if tok[0] in "vs" else ""))
@@ -581,6 +604,22 @@ def check_read(ctx, h: Hist, o, ret, case, final=False):
                  f"object {o} ({h.system[o]}, shape {h.shadow[o].shape}, row {w}: {row(h.shadow[o])}) converted to {OTHER[h.system[o]]} gives "
                  f"{row(got)} but an object built from its current contents gives {row(want)} "
                  f"(history {' '.join(h.ops)})", {**case(), "object": o})
+    # independent of the library (a process-wide memo of a kernel would serve the fresh object as well): the two-body
+    # relations between the state and the elements of the pair (object asked, object handed out)
+    if fam.anomalies and got.shape == want.shape:
+        st, el = (h.shadow[o], got) if h.system[o] == "trs" else (got, h.shadow[o])
+        st, el = np.asarray(st, dtype=float).reshape(-1, 6), np.asarray(el, dtype=float).reshape(-1, 6)
+        GM = h.GM
+        with np.errstate(all="ignore"):
+            rn, vn = np.linalg.norm(st[:, :3], axis=1), np.linalg.norm(st[:, 3:], axis=1)
+            a, e, E = el[:, 0], el[:, 1], el[:, 5]
+            bad = ((np.abs(1.0 / (2.0 / rn - vn * vn / GM) - a) > 1e-9 * np.abs(a)) | (np.abs(rn - a * (1 - e * np.cos(E))) > 1e-9 * rn)
+                   | (np.abs(np.einsum("ij,ij->i", st[:, :3], st[:, 3:]) - np.sqrt(GM * a) * e * np.sin(E)) > 1e-9 * rn * vn))
+            ok = np.isfinite(st).all(axis=1) & np.isfinite(el).all(axis=1) & (a > 0) & (e < 1)
+        if np.any(bad & ok):
+            i = int(np.argmax(bad & ok))
+            gviolate(ctx, f"{pre}two-body:{rel}", f"state {st[i].tolist()} and elements {el[i].tolist()} (object {o} and its conversion, row {i}) violate vis-viva / "
+                     f"r = a(1 - e cos E) / r.v = sqrt(GM a) e sin E (history {' '.join(h.ops)})", {**case(), "object": o})
     # the anomalies of the Kepler side belong to the elements it holds now
     for j in ((o, ret) if fam.anomalies else ()):
         if h.system[j] != "kepler":
@@ -604,7 +643,7 @@ def model_history(ctx, h: Hist, rets, snaps, case, GM):
     """the Lean store executes the same operations"""
     drv = ctx.driver
     fam = h.fam
-    ans = drv.ask1("c07 hist " + " ".join(h.model_ops))
+    ans = drv.ask1("c07 hist " + " ".join(t for t in h.model_ops if t is not None))
     if ans is None or ans.startswith("?") or "|" not in ans:
         gdisagree(ctx, f"{fam.name} cache/view store: history rejected by the model", case(), ans, rets)
         return
